@@ -59,6 +59,7 @@ type PkgDecl struct {
 	Hidden      bool       // the package has an unexported @immutable type u<qual>, handed out by GetU<Qual>()
 	HiddenMutB  bool       // ... whose field B is @mutable
 	UnsafeFirst bool       // its files import "unsafe" before the world imports
+	Bulk        bool       // one function of this package holds several hundred violating statements
 	Sparse      bool       // few annotations (see genDecls)
 	SplitDecl   bool       // methods and functions live in methods.go, types in decl.go
 	Grouped     bool       // a grouped type declaration: group doc shared, one spec with its own doc
@@ -91,6 +92,7 @@ type GenOpt struct {
 	Flat             bool // allow worlds of unrelated packages (C11)
 	NeedDepth2       bool // force a chain a <- b <- c (C06)
 	CleanChance      int  // out of 4: worlds without @ignore comments and exclude-checks (expectation oracles apply)
+	Bulk             bool // rarely, a package with several hundred violations of its own (volume-dependent behaviour)
 	MultiModule      bool // some packages belong to a second, versioned module (simulated drivers only)
 	StdImports       bool // some files import "unsafe" ahead of their world imports
 	DirExclude       bool // exclude-paths may name a directory of the world
@@ -108,6 +110,7 @@ var junkPkgs = []string{"nosuch", "github.com/x/y-z.v2", "a/b/c", "util", "x.y/z
 var ctorFnTaken map[int]map[string]bool
 var longLines, lineDirectives bool
 var depModuleUpTo int // packages with a smaller index belong to the dependency module
+var bulkWorld bool    // this world has packages with several hundred violations each
 
 // filler is comment text of n bytes with a few tabs and multi-byte runes.
 func filler(d drw, n int) string {
@@ -133,6 +136,7 @@ func Generate(t Drawer, opt GenOpt) (*World, *Meta) {
 	longLines = opt.LongLines
 	lineDirectives = opt.LineDirectives
 	depModuleUpTo = 0
+	bulkWorld = opt.Bulk && d.chance(1, 30)
 	w := &World{Module: "ex.test/w"}
 	m := &Meta{}
 	n := d.rng(opt.MinPkgs, opt.MaxPkgs)
@@ -449,6 +453,7 @@ func genDecls(d drw, w *World, m *Meta, pd *PkgDecl) {
 	}
 	pd.Hidden = d.chance(1, 4)
 	pd.HiddenMutB = d.chance(1, 2)
+	pd.Bulk = bulkWorld && pd.Index <= 1
 	for _, j := range pd.Imports {
 		dep := m.Decls[j]
 		if len(dep.Types) > 0 && (d.chance(1, 2) || sparse) {
@@ -572,6 +577,10 @@ func renderDecl(d drw, w *World, m *Meta, pd *PkgDecl) []File {
 		pkgOnlyLines(s, "", td.PkgOnly)
 		for _, l := range td.Impl {
 			s.ln("%s", l)
+		}
+		if d.chance(1, 8) {
+			// annotation-looking lines that the grammar rejects (no names, a colon, a stray word)
+			s.ln("%s", []string{"// @constructor", "// @packageonly: nosuch", "// @constructor 9lives", "// @implementsNothing"}[d.Draw(4)])
 		}
 		s.ln("type %s struct {", td.Name)
 		s.ln("\tA int")
@@ -812,8 +821,8 @@ func renderUses(d drw, w *World, m *Meta, pd *PkgDecl, fileName string, nfuncs i
 				}
 				used[sh.name] = true
 				ig := ""
-				if !m.Clean && d.chance(1, 25) {
-					ig = []string{"IMM01", "CTOR", "ALL", "TONL01", "PKGO", "imm"}[d.Draw(6)]
+				if !m.Clean && d.chance(1, 10) {
+					ig = []string{"ALL", "IMM", "CTOR", "ALL", "IMM01", "TONL", "PKGO", "imm"}[d.Draw(8)]
 					if d.chance(1, 2) {
 						s.ln("\t// @ignore %s", ig)
 						ig = ""
@@ -939,6 +948,17 @@ func renderUses(d drw, w *World, m *Meta, pd *PkgDecl, fileName string, nfuncs i
 			fn++
 			s.ln("")
 		}
+	}
+	if pd.Bulk && fileName == "use.go" {
+		td := pd.Types[0]
+		s.ln("func bulk_%s() {", tag)
+		s.ln("\tx := Get%s()", td.Name)
+		for i := 0; i < 340; i++ {
+			s.ln("\tx.A = %d", i)
+			s.ln("\t_ = %s{}", td.Name)
+		}
+		s.ln("}")
+		s.ln("")
 	}
 	return File{Name: fileName, Src: s.b.String()}
 }
